@@ -240,7 +240,7 @@ class _P:
         self.t = list(tokens)
         self.i = 0
         self.name_of = name_of
-        self.adjacent = False  # a sign directly after an operator other than '(' (formulaic lexes this as one operator)
+        self.adjacent = False  # a sign directly after a binary arithmetic operator or another sign (x * -2, x - -y)
         self.chained = False
 
     def peek(self):
@@ -275,8 +275,8 @@ class _P:
         sign = None
         if self.peek() in ("+", "-"):
             prev = self.t[self.i - 1] if self.i > 0 else None
-            if prev is not None and prev != "(":
-                self.adjacent = True
+            if prev is not None and prev not in ("(", "=", ","):
+                self.adjacent = True  # (not reachable: expr() only starts at the head, after '(', '=' or ',')
             sign = self.take()
         node = self.term()
         if sign == "-":
